@@ -817,7 +817,17 @@ def r59(orig, rule):
     return 'match %s.get(%s) { Some(%s) => Some(%s), None => None }' % (e, i, x, body)
 
 
+def r60(orig, rule):
+    # match E {   ->   let NAME = E; match NAME {        (the scrutinee is evaluated once, first, either way; naming it lets a proof block
+    #                                                     state facts about it before the arms run)
+    s = norm(orig)
+    name = rule.split()[1]
+    m = _m(r'match (.+) \{', s)
+    return 'let %s = %s; match %s {' % (name, m.group(1), name)
+
+
 GENERATORS = {
+    'R60': r60,
     'R58': r58, 'R59': r59,
     'R57': r57,
     'R55': r55, 'R56': r56,
